@@ -184,24 +184,20 @@ Definition nontrivial (r : Z * Z) : bool := negb (fst r =? snd r)%Z.
 Definition bounds_dims (b : bounds) : nat := List.length (filter nontrivial b).
 
 (* ====================================================================== *)
-(* 3. develop_lattice: dimension checks (CellConversion.py:436-451)        *)
+(* 3. develop_lattice: dimension checks                                    *)
 (* ====================================================================== *)
 
-Fixpoint missing_check (k i : nat) (revb : bounds) : res unit :=
-  match k with
-  | O => Ok tt
-  | S k' =>
-      match nth_error revb i with
-      | None => Err EIndex
-      | Some r => if nontrivial r then Err ELattice else missing_check k' (S i) revb
-      end
-  end.
-
+(* (repaired code, 9b5a8f0) at least as many ranges as lattice directions, and
+   only the ranges beyond them must be trivial *)
 Definition lattice_dims_check (nb : nat) (b : bounds) : res unit :=
-  let nd := List.length b in
-  if (nb =? nd)%nat then Ok tt
-  else if negb (nb =? bounds_dims b)%nat then Err ELattice
-  else missing_check (Z.to_nat (Z.of_nat nb - Z.of_nat nd)) 0 (rev b).
+  if (List.length b <? nb)%nat then Err ELattice
+  else if existsb nontrivial (skipn nb b) then Err ELattice
+  else Ok tt.
+
+(* hexLatticeBaseVectors: six side planes, optionally two axial ones (other
+   counts fail in hexVertices/hexSortSides in value-dependent ways) *)
+Definition hex_nb (nsurf : nat) : res nat :=
+  if (nsurf =? 6)%nat then Ok 2%nat else if (nsurf =? 8)%nat then Ok 3%nat else Err EUnmodelled.
 
 (* squareLatticeReciprocalVecs: 2, 4 or 6 sub-surfaces *)
 Definition square_nb (nsurf : nat) : res nat :=
@@ -754,11 +750,10 @@ Section Num.
                 | Some lat =>
                     match cs_fill cs with
                     | Some (FLat b univs) =>
-                        if negb (lat =? 1)%Z then Err EUnmodelled
-                        else if negb (List.length (c_compl c) =? 0)%nat then Err EUnmodelled
+                        if negb (List.length (c_compl c) =? 0)%nat then Err EUnmodelled
                         else
                           do ns <- count_subsurfs sm (c_lits c);
-                          do nb <- square_nb ns;
+                          do nb <- (if (lat =? 1)%Z then square_nb ns else hex_nb ns);
                           do tt <- lattice_dims_check nb b;
                           if existsb (fun u => match u with None => true | _ => false end) univs
                           then Err EUnmodelled
